@@ -313,6 +313,10 @@ func (c *oCache) TryRemove(id string) (ok bool, err error) {
 
 	c.mu.Unlock()
 
+	// an entry whose load is still in flight has no value yet: there is nothing to try to close
+	if !e.isActive() {
+		return false, nil
+	}
 	prevState, _, _ := e.setClosing(context.Background(), false)
 	if prevState == entryStateClosing || prevState == entryStateClosed {
 		return false, nil
